@@ -72,6 +72,15 @@ static void parse_drops() {
 
 static std::vector<uint32_t> g_trace;
 static void load_trace(const char* s) {
+    std::string filebuf;
+    if (*s == '@') {   // "@path": the trace is in a file (an environment string is limited to 128 KiB)
+        FILE* f = fopen(s + 1, "r");
+        if (!f) { fprintf(stderr, "cannot open trace %s\n", s + 1); _exit(2); }
+        char buf[65536]; size_t n;
+        while ((n = fread(buf, 1, sizeof buf, f)) > 0) filebuf.append(buf, n);
+        fclose(f);
+        s = filebuf.c_str();
+    }
     while (*s) {
         char* end; unsigned long v = strtoul(s, &end, 10);
         if (end == s) break;
